@@ -46,9 +46,9 @@ const T4: u64 = 14 * 30 * 52 * 80;
 fn families(t: Tier) -> Vec<(&'static str, u64)> {
     vec![
         ("topo", 3 * (T1 + T2 + T3 + t.n(0, T4))),
-        ("dag-exact", t.n(12_000, 1_000_000)),
-        ("dag-smooth", t.n(8_000, 600_000)),
-        ("readme", t.n(1_500, 60_000)),
+        ("dag-exact", t.n(40_000, 1_000_000)),
+        ("dag-smooth", t.n(25_000, 600_000)),
+        ("readme", t.n(3_000, 60_000)),
         ("chain", t.n(400, 6_000)),
         ("fanin", t.n(600, 20_000)),
     ]
